@@ -11,6 +11,9 @@ let table : (string * ((Model.z list -> Model.z list) * (Model.z list -> Model.z
   ("C01", (Model.run_pool, Model.chk_c01));
   ("C06", (Model.run_pool, Model.chk_c06));
   ("C07", (Model.run_pool, Model.chk_c07));
+  ("C04", (Model.run_svc, Model.chk_c04));
+  ("C05", (Model.run_svc, Model.chk_c05));
+  ("C09", (Model.run_svc, Model.chk_c09));
 ]
 
 (* optional diagnostics: which clause of the property failed *)
@@ -18,4 +21,7 @@ let why : (string * (Model.z list -> Model.z list -> Model.z)) list = [
   ("C01", Model.why_pool (Model.Zpos Model.XH));
   ("C06", Model.why_pool (Model.Zpos (Model.XO (Model.XI Model.XH))));
   ("C07", Model.why_pool (Model.Zpos (Model.XI (Model.XI Model.XH))));
+  ("C04", Model.why_svc (Model.Zpos (Model.XO (Model.XO Model.XH))));
+  ("C05", Model.why_svc (Model.Zpos (Model.XI (Model.XO Model.XH))));
+  ("C09", Model.why_svc (Model.Zpos (Model.XI (Model.XO (Model.XO Model.XH)))));
 ]
